@@ -116,6 +116,32 @@ fn recover_census(cfg: &Cfg, dir: &Path) -> Result<Census, String> {
     }
 }
 
+
+/// After a crash state has been recovered, the engine must keep working: one more acknowledged insert
+/// followed by a clean restart must be preserved (this is where "recovery appends behind a torn tail" or
+/// "recovery does not list its new segment" would show).  Returns a description of the failure, if any.
+fn post_recovery_write_check(cfg: &Cfg, dir: &Path) -> Option<String> {
+    let r = std::panic::catch_unwind(|| -> Option<String> {
+        let b = match eng::start(cfg, dir) { Ok(b) => b, Err(_) => return None }; // start-up failure is reported by the main oracle
+        let before = eng::census(&b);
+        let id = 9_999u64;
+        let v: Vec<f32> = (0..cfg.dim).map(|i| if i == 0 { 1.0 } else { 0.0 }).collect();
+        let mut bo = Some(b);
+        let out = eng::apply(&mut bo, cfg, dir, &Op::Insert { id, vec: v, meta: Meta::new() });
+        if !eng::is_ok(&out) { return None } // e.g. index full: nothing acknowledged
+        let live = eng::census(bo.as_ref().unwrap());
+        drop(bo);
+        match eng::start(cfg, dir) {
+            Err(e) => Some(format!("restart after a post-recovery insert failed: {:#}", e)),
+            Ok(b2) => {
+                let after = eng::census(&b2);
+                if after != live { Some(format!("post-recovery insert not preserved by the next restart: before={:?} live={:?} after={:?}", before.keys().collect::<Vec<_>>(), live.keys().collect::<Vec<_>>(), after.keys().collect::<Vec<_>>())) } else { None }
+            }
+        }
+    });
+    r.unwrap_or(Some("panic in post-recovery write check".into()))
+}
+
 fn hash_files(f: &BTreeMap<String, Vec<u8>>) -> u64 {
     use std::hash::{Hash, Hasher};
     let mut h = std::collections::hash_map::DefaultHasher::new();
@@ -143,6 +169,7 @@ struct HistResult {
     abs_ops: Vec<Vec<abs::AEff>>,
     /// sampled kill crash points: (model effect index, torn, recovered census or error)
     starts: Vec<(usize, bool, Result<Census, String>)>,
+    continuations: u64,
 }
 
 /// Allowed censuses at crash point k: shadow(acked) and shadow(acked + in-flight).
@@ -188,7 +215,7 @@ fn expectations(h: &History, sp: &[OpSpan], k: usize) -> (Census, Option<Census>
 fn check_history(h: &History, work: &Path, tag: &str, tier: &str) -> HistResult {
     let (_dir, t) = run_child(h, work, tag, None);
     let sp = spans(&t, h.ops.len());
-    let mut res = HistResult { states: 0, distinct_states: 0, recoveries: 0, effects: t.evs.len(), fails: vec![], kinds: BTreeMap::new(), effect_kinds: BTreeMap::new(), midop_states: 0, abs_ops: vec![], starts: vec![] };
+    let mut res = HistResult { states: 0, distinct_states: 0, recoveries: 0, effects: t.evs.len(), fails: vec![], kinds: BTreeMap::new(), effect_kinds: BTreeMap::new(), midop_states: 0, abs_ops: vec![], starts: vec![], continuations: 0 };
     for e in &t.evs { *res.effect_kinds.entry(e.kind.clone()).or_insert(0) += 1; }
     let full_ok = sp.len() == h.ops.len() + 1 && sp.iter().all(|s| s.ack_after.is_some());
     if !full_ok {
@@ -254,6 +281,14 @@ fn check_history(h: &History, work: &Path, tag: &str, tier: &str) -> HistResult 
         if loss == Loss::Kill && res.starts.len() < max_samples && (res.states % 7 == 3 || torn.is_some() && res.states % 5 == 0) {
             let (n, partial) = abs::model_point(&ab, k, torn.is_some());
             res.starts.push((n, partial, rec.clone()));
+            // continuation check on the same sampled crash state
+            if rec.is_ok() {
+                vfs::materialise(&files, &scratch).unwrap();
+                res.continuations += 1;
+                if let Some(why) = post_recovery_write_check(&h.cfg, &scratch) {
+                    res.fails.push(Fail { why, class: None, detail: json!({"history": h, "crash_before_effect": k, "torn_bytes": torn, "loss": "Kill", "check": "post-recovery insert + restart"}) });
+                }
+            }
         }
         let ok = match &rec {
             Ok(c) => *c == acked || with.as_ref().map(|w| c == w).unwrap_or(false),
@@ -383,12 +418,17 @@ fn periodic_idle_tail(work: &Path) -> serde_json::Value {
     }
     let _ = std::fs::remove_dir_all(&scratch);
     let wal_syncs_after_first_insert = sp.get(1).map(|s| t.evs[s.begin_after..].iter().filter(|e| (e.kind == "fsync" || e.kind == "fdatasync") && e.path.starts_with("wal_")).count()).unwrap_or(0);
-    let lost = out.get("power_all").and_then(|x| x.get("recovered_ids")).map(|ids| ids.as_array().map(|a| a.len() < 2).unwrap_or(true)).unwrap_or(true);
+    let ids_of = |name: &str| out.get(name).and_then(|x| x.get("recovered_ids")).and_then(|x| x.as_array()).map(|a| a.len());
+    // tight classification: the run completed (both inserts acknowledged), the idle gap (200 ms) exceeds the
+    // interval (50 ms), the kill view recovers every acknowledged write and the power-loss view does not
+    let lost = complete && ids_of("kill") == Some(2) && ids_of("power_all").map(|n| n < 2).unwrap_or(false);
+    let other_failure = !complete || ids_of("kill") != Some(2) || ids_of("power_all").is_none();
     json!({
         "scenario": "fsync=Periodic(50ms); insert 1; insert 2 (both acknowledged); idle 200 ms; power loss",
         "complete": complete, "acked_ops": 2, "idle_ms": 200,
         "wal_syncs_issued_after_first_insert": wal_syncs_after_first_insert,
         "views": out, "acked_write_lost_on_power_loss": lost,
+        "scenario_itself_failed": other_failure,
         "class": if lost { json!("C01-periodic-idle-tail-never-synced") } else { json!(null) },
     })
 }
@@ -496,7 +536,8 @@ fn main() {
         std::fs::write(work.join(format!("cases_{}.v", k)), coq_cases_file(&b.join(";\n  "), &it)).unwrap();
     }
     let periodic = if replay.is_none() || replay_periodic { periodic_idle_tail(&work) } else { json!(null) };
-    if periodic.get("acked_write_lost_on_power_loss").and_then(|x| x.as_bool()).unwrap_or(false) {
+    if periodic.get("acked_write_lost_on_power_loss").and_then(|x| x.as_bool()).unwrap_or(false)
+        || periodic.get("scenario_itself_failed").and_then(|x| x.as_bool()).unwrap_or(false) {
         fails.push(json!({
             "history_index": null,
             "why": "periodic fsync: a write acknowledged 200 ms (4 flush intervals) before a power loss is lost - nothing syncs an idle WAL tail",
@@ -504,6 +545,7 @@ fn main() {
         }));
     }
     let summary = json!({
+        "post_recovery_write_checks": results.iter().map(|(_, r)| r.continuations).sum::<u64>(),
         "coq_shards": bodies.len(), "coq_histories": coq_histories, "coq_model_oracle_histories": coq_oracle_histories, "coq_start_samples": start_samples,
         "coq_op_effect_lists_compared": ops_compared,
         "norm_idem_checked": it.idem_checked, "norm_idem_failures": it.idem_failed,
